@@ -103,6 +103,17 @@ def check(case, exclude=None):
 
     V = stars.VectorStarSet(S)
     nv = V.Nvstars
+    # an existing vector-star object re-generated for another star set must give the same basis as a fresh one
+    # (the calculators regenerate their vector stars in place when the thermodynamic range changes)
+    if S.Nshells >= 1:
+        S1 = S.copy(empty=True)
+        S1.generate(1, originstates=False)
+        Vre = stars.VectorStarSet(S1)
+        Vre.generate(S)
+        require(Vre.Nvstars == nv and len(Vre.vecpos) == nv and len(Vre.vecvec) == nv and
+                all(list(a) == list(b) for a, b in zip(Vre.vecpos, V.vecpos)) and
+                all(np.abs(np.array(a) - np.array(b)).max() < 1e-12 for a, b in zip(Vre.vecvec, V.vecvec)),
+                lambda: "a VectorStarSet re-generated for another star set differs from a fresh one (%d vs %d vector stars)" % (len(Vre.vecpos), nv))
     require(nv == len(V.vecpos) == len(V.vecvec), lambda: "Nvstars %s, len(vecpos) %d, len(vecvec) %d" % (nv, len(V.vecpos), len(V.vecvec)))
     # ---- 1. every vector star is a field on one complete star --------------------------------------
     F = np.zeros((nv, nst, d))       # F[n, a] = vector of vector star n on state a
